@@ -692,7 +692,8 @@ Definition good (r : rec) (o : rop Nm) : Prop :=
   | RRecon _ dim _ =>
       rstrict r = true \/
       forall d sh rws, st (rg r) = SFull d sh rws -> pyidx (S (length sh)) (shifted dim) <> 0
-  | RSetValue _ _ => False
+  | RSetValue _ v =>    (* de-initialising assignments (None / empty tensor); other assignments can invalidate the record *)
+      match v with Ring.SFull _ _ _ => False | _ => True end
   | RDeinit _ => True
   end.
 
@@ -904,7 +905,21 @@ Proof.
     destruct (rreconstrain_spec r dim z Hwf Hv Hna Hg) as (r' & e & Hr & H1 & H2 & H3 & H4 & H5 & H6 & H7 & _).
     rewrite Hr. cbn [fst]. split; [exact H1|]. split; [exact H2|]. split; [exact H3|]. split; [split; congruence|].
     rewrite H4, Hsz. unfold rsize. congruence.
-  - contradiction.
+  - (* value := None / empty tensor: refused (None over a parameter) or storage replaced and pointer rewound *)
+    unfold Resize.rset_value, set_value. cbn [Resize.to_shaped sparam slive scons sstrict].
+    destruct v as [|dv|dv shv rwsv]; [| |contradiction]; cbn [data_of].
+    + destruct (rparam r); cbn [andb fst]; [exact HI|].
+      destruct (rlive r); cbn [ignore_or_compatible ignore fst];
+        (apply ring_change_inv; [exact HI| | | | |]; cbn [N ptr st];
+         [destruct Hw as (Hn & _); unfold wf; cbn [N ptr st]; auto|exact I|reflexivity|reflexivity
+         |destruct (st (rg r)); exact I]).
+    + rewrite andb_false_r.
+      assert (Hig : ignore (DTensor (mkT dv [0] [])) = true) by reflexivity.
+      assert (Hioc : forall c b, ignore_or_compatible (DTensor (mkT dv [0] [])) c b = true) by reflexivity.
+      rewrite Hioc, Hig. destruct (rlive r); cbn [fst];
+        (apply ring_change_inv; [exact HI| | | | |]; cbn [N ptr st];
+         [destruct Hw as (Hn & _); unfold wf; cbn [N ptr st]; auto|exact I|reflexivity|reflexivity
+         |destruct (st (rg r)); exact I]).
   - (* deinitialize *)
     unfold Resize.rdeinit. cbn [fst].
     apply ring_change_inv; [exact HI| | | | |]; cbn [N ptr st].
@@ -1115,6 +1130,56 @@ Proof.
   destruct (Hfull _ _ _ Es) as [(rws' & _ & Hat)|(j & sz & rws' & -> & -> & Hin & Hp & Hj & _ & _ & Hat)].
   - left. unfold hist. rewrite HN. apply map_ext. intros k. apply Hat.
   - right. exists j, sz. do 5 (split; [auto|]). unfold hist. rewrite HN, map_map. apply map_ext. intros k. apply Hat.
+Qed.
+
+(* RecordTensor.value := v.  The assignment never raises anything but what ShapedTensor's setter raises (in
+   particular no AttributeError); a de-initialising value (None, empty tensor) that is accepted replaces the
+   storage and rewinds the pointer to 0; an accepted initialised value leaves the pointer alone; a refused
+   assignment changes nothing.  The number of slots, the constraints and the temporal configuration are never touched. *)
+Theorem rset_value_spec (r : rec) (v : @Ring.storage A D) :
+  let '(r', e) := rset_value Nm r v in
+  e <> Some XAttr /\ e <> Some XIndex /\
+  N (rg Nm r') = N (rg Nm r) /\ rcons Nm r' = rcons Nm r /\
+  rdt Nm r' = rdt Nm r /\ rdur Nm r' = rdur Nm r /\ rincl Nm r' = rincl Nm r /\
+  match e with
+  | Some _ => r' = r
+  | None => st (rg Nm r') = v /\
+            ptr (rg Nm r') = (if ignore (data_of v) then 0 else ptr (rg Nm r))
+  end.
+Proof.
+  unfold rset_value, set_value.
+  destruct (sparam (to_shaped Nm r) && _).
+  { repeat split; congruence. }
+  destruct (slive (to_shaped Nm r)).
+  - destruct (ignore_or_compatible _ _ _).
+    + destruct (ignore (data_of v)); cbn; repeat split; congruence.
+    + repeat split; congruence.
+  - destruct (ignore (data_of v)); cbn; repeat split; congruence.
+Qed.
+
+(* what is refused: None over a parameter (RuntimeError); on a live attribute, a tensor that is neither
+   ignored nor compatible with the constraints (ValueError) *)
+Theorem rset_value_refused (r : rec) (v : @Ring.storage A D) e :
+  snd (rset_value Nm r v) = Some e ->
+  (e = XRuntime /\ rparam Nm r = true /\ v = SNone) \/
+  (e = XValue /\ rlive Nm r = true /\ ignore_or_compatible (data_of v) (all_cons Nm r) (rstrict Nm r) = false).
+Proof.
+  unfold rset_value, set_value. cbn [to_shaped sparam slive scons sstrict].
+  destruct (rparam Nm r) eqn:Ep; cbn [andb].
+  - destruct v as [|dv|dv shv rwsv]; cbn [data_of].
+    + cbn [snd]. intros H; injection H as <-. left; auto.
+    + destruct (rlive Nm r) eqn:El.
+      * destruct (ignore_or_compatible _ _ _) eqn:Ei; [destruct (ignore _); cbn [snd]; discriminate|].
+        cbn [snd]. intros H; injection H as <-. right; auto.
+      * destruct (ignore _); cbn [snd]; discriminate.
+    + destruct (rlive Nm r) eqn:El.
+      * destruct (ignore_or_compatible _ _ _) eqn:Ei; [destruct (ignore _); cbn [snd]; discriminate|].
+        cbn [snd]. intros H; injection H as <-. right; auto.
+      * destruct (ignore _); cbn [snd]; discriminate.
+  - destruct (rlive Nm r) eqn:El.
+    + destruct (ignore_or_compatible _ _ _) eqn:Ei; [destruct (ignore _); cbn [snd]; discriminate|].
+      cbn [snd]. intros H; injection H as <-. right; auto.
+    + destruct (ignore _); cbn [snd]; discriminate.
 Qed.
 
 End Clauses.
